@@ -143,7 +143,7 @@ def oracle(result):
 
 def run(ck: Check):
     ck.trusted = TRUST
-    ck.prove(extra_targets=["Corr/Check_inj.v"])
+    ck.prove(extra_targets=["Corr/Check_inj.v", "Ctx/InjectExamples.v"])
     results = collect(ck, ck.n(800, 15000), 26)
     terms = [case_term(r) for r in results]
     bad = ck.coq_eval("inj", HEADER, terms, "inj_case", "check_inj", shard=120)
